@@ -677,9 +677,13 @@ func c05FeedOrder(ctx *Ctx, id string, core *hub.Core, c c05Case, recs [][]*c05R
 		}
 		// expected writes on this dataset
 		exp := map[string]wr{}
+		maybe := map[string]string{} // writes that returned an error: they may or may not have taken effect
 		for _, rs := range recs {
 			for _, r := range rs {
-				if (r.op.Kind == "batch" || r.op.Kind == "txn") && r.err == "" {
+				if (r.op.Kind == "batch" || r.op.Kind == "txn") && r.err != "" {
+					maybe[r.op.Tag] = r.err
+				}
+				if r.op.Kind == "batch" || r.op.Kind == "txn" {
 					for _, x := range r.op.DS {
 						if x == d {
 							exp[r.op.Tag] = wr{r, len(r.op.IDs)}
@@ -729,6 +733,12 @@ func c05FeedOrder(ctx *Ctx, id string, core *hub.Core, c c05Case, recs [][]*c05R
 			pos[b.tag] = bi
 		}
 		for t := range exp {
+			if _, failed := maybe[t]; failed {
+				if _, ok := pos[t]; ok {
+					ctx.Out.Stat("errored_writes_that_took_effect", 1)
+				}
+				continue
+			}
 			if _, ok := pos[t]; !ok {
 				ctx.Out.Viol(id, "C05", "acknowledged-write-lost", fmt.Sprintf("dataset %s: acknowledged write %s is not in the feed", d, t), nil, nil, nil)
 				return
@@ -739,6 +749,12 @@ func c05FeedOrder(ctx *Ctx, id string, core *hub.Core, c c05Case, recs [][]*c05R
 		for t1, w1 := range exp {
 			for t2, w2 := range exp {
 				if t1 == t2 {
+					continue
+				}
+				if _, f1 := maybe[t1]; f1 {
+					continue
+				}
+				if _, f2 := maybe[t2]; f2 {
 					continue
 				}
 				if w1.rec.ret < w2.rec.call { // w1 returned before w2 was called
@@ -778,15 +794,18 @@ func c05EmitRegisters(ctx *Ctx, id string, c c05Case, recs [][]*c05Rec) {
 		for _, r := range rs {
 			switch r.op.Kind {
 			case "batch", "txn":
+				ret := r.ret
 				if r.err != "" {
-					continue
+					// an operation that returned an error may still have taken effect (or take effect later):
+					// it stays open until the end of the history
+					ret = 1 << 60
 				}
 				for _, d := range r.op.DS {
 					if strings.HasPrefix(d, "tmp") {
 						continue
 					}
 					for _, e := range r.op.IDs {
-						ctx.Out.Ev(map[string]any{"case": id, "k": "reg", "c": cl, "w": true, "key": d + "|" + e, "val": r.op.Tag, "call": r.call, "ret": r.ret})
+						ctx.Out.Ev(map[string]any{"case": id, "k": "reg", "c": cl, "w": true, "key": d + "|" + e, "val": r.op.Tag, "call": r.call, "ret": ret})
 						n++
 					}
 				}
